@@ -424,12 +424,19 @@ class ModGen:
         self.table = None
         if imported_table or r.random() < 0.6:
             size = r.randint(2, 6)
-            if not imported_table:
+            if not imported_table and not d.exec_profile and r.random() < 0.08:
+                size = 0          # an empty table: no element segments, every call_indirect traps
+                mx = r.choice([None, 0, 3])
+                if mx is None and "text-table-min0-nomax-unparsable" in self.avoid:
+                    mx = 3
+                desc["table"] = {"min": 0, "max": mx}
+                self.feat("table.empty")
+            elif not imported_table:
                 desc["table"] = {"min": size, "max": r.choice([None, size, size + 3])}
             else:
                 size = 4
             entries = [None] * size
-            for _ in range(r.choice([1, 1, 2])):
+            for _ in range(r.choice([1, 1, 2]) if size else 0):
                 off = r.randrange(0, size)
                 n = r.randint(1, size - off)
                 # only functions defined *before* the caller are safe to call; the
@@ -617,8 +624,31 @@ class FuncGen:
             return [const_instr(I32, r.choice([0, 0, 1, 1, 2, 70000]))] + self.op("memory.grow")
         return self.numeric(t, depth)
 
+    SPECIAL_F32 = [0x7FC00000, 0x00000000, 0x80000000, 0x7F800000, 0xFF800000]
+    SPECIAL_F64 = [0x7FF8000000000000, 0x0000000000000000, 0x8000000000000000, 0x7FF0000000000000,
+                   0xFFF0000000000000]
+
+    def cmp_operands(self, t, depth):
+        """Operands of a comparison.  Float comparisons get a NaN / +-0 / +-inf constant on one side
+        with probability 0.3: the translator keeps comparison results as lazy (op, a, b) tuples and
+        every consumer (eqz, if, br_if, select, another comparison) has to treat the unordered case."""
+        r = self.r
+        a = self.expr(t, depth - 1)
+        b = self.expr(t, depth - 1)
+        if t in FLOATS and r.random() < 0.3:
+            pool = self.SPECIAL_F32 if t == F32 else self.SPECIAL_F64
+            if "no-nonfinite-float-const" in self.avoid:
+                pool = pool[1:3]
+            c = [const_instr(t, r.choice(pool))]
+            self.feat("cmp.special_operand")
+            if r.random() < 0.5:
+                a = c
+            else:
+                b = c
+        return a + b
+
     def cond(self, depth):
-        """An i32 used as a condition: biased to comparisons."""
+        """An i32 used as a condition: biased to comparisons, sometimes negated by i32.eqz."""
         r = self.r
         if r.random() < 0.7 and depth > 0 and self.budget > 0:
             t = r.choice(VALTYPES)
@@ -626,7 +656,14 @@ class FuncGen:
             if t in FLOATS and "float-cmp-gt-ge-only" in self.avoid:
                 names = [t + ".gt", t + ".ge"]
             n = r.choice(names)
-            return self.expr(t, depth - 1) + self.expr(t, depth - 1) + self.op(n)
+            code = self.cmp_operands(t, depth) + self.op(n)
+            k = r.random()
+            if k < 0.25:
+                code += self.op("i32.eqz")
+                self.feat("cmp.negated")
+                if k < 0.05:
+                    code += self.op("i32.eqz")
+            return code
         return self.expr(I32, depth)
 
     def numeric(self, t, depth):
@@ -712,6 +749,8 @@ class FuncGen:
             return self.expr(t, depth - 1) + b + self.op(n)
         if t == I32 and args[0] in FLOATS and base in ("eq", "ne", "lt", "le") and "float-cmp-gt-ge-only" in av:
             n = args[0] + "." + r.choice(["gt", "ge"])
+        if t == I32 and len(args) == 2 and base in _ICMP + _FCMP:
+            return self.cmp_operands(args[0], depth) + self.op(n)
         code = []
         for k, at in enumerate(args):
             sub = self.expr(at, depth - 1)
@@ -1146,6 +1185,8 @@ def gen_calls(rnd, desc, per_export=8):
             args = []
             for t in params:
                 v = rand_value(rnd, t)
+                if t in FLOATS and rnd.random() < 0.15:
+                    v = rnd.choice(FuncGen.SPECIAL_F32 if t == F32 else FuncGen.SPECIAL_F64)
                 args.append([t, str(v) if t in INTS else ("%08x" % v if t == F32 else "%016x" % v)])
             calls.append({"f": e["name"], "args": args, "ret": results[0] if results else None})
     rnd.shuffle(calls)
